@@ -477,11 +477,28 @@ def getAt : List Step → T → Option T
 
 /-! ### the attribute of one object in a session -/
 
+/-- `obj._status_` as far as this attribute's bookkeeping goes -/
+inductive Status where
+  | created | loaded | inserted | updated | modified
+  deriving DecidableEq, Repr, Inhabited
+
 structure St where
-  doc : T          -- obj._vals_[attr]
-  dirty : Bool     -- obj._wbits_ has attr's bit (status 'modified')
-  db : T           -- the column in the database
+  doc : T            -- obj._vals_[attr]
+  dirty : Bool       -- attr's bit in obj._wbits_  (obj._wbits_ is None while the object is 'created')
+  db : T             -- the column in the database (for a 'created' object: nothing yet)
+  status : Status    -- obj._status_
+  volatile : Bool    -- the attribute was declared volatile=True
   deriving Repr, Inhabited
+
+/-- `obj._bits_[attr]`: non-zero for every attribute that has a column — volatile or not (`_initialize_bits_`) -/
+def bitAll (_ : St) : Bool := true
+/-- `obj._bits_except_volatile_[attr]`: zero for a volatile attribute (used by `Attribute.__get__` for the read bits only) -/
+def bitExceptVolatile (s : St) : Bool := !s.volatile
+
+/-- `Entity._attr_changed_` (and the same lines of `Attribute.__set__`):
+    `bit = obj._bits_[attr]; if wbits is not None and bit: obj._wbits_ |= bit; if status != 'modified': status = 'modified'` -/
+def attrChanged (s : St) : St :=
+  if s.status != .created && bitAll s then { s with dirty := true, status := .modified } else s
 
 inductive Op where
   | lmut (p : List Step) (m : LMut)
@@ -489,28 +506,47 @@ inductive Op where
   | read (p : List Step)            -- any non-mutating method on the value at `p`
   | touch                           -- a tracked method called on a wrapper that is no longer part of the value
   | assign (v : T)                  -- obj.attr = v
-  | flush                           -- flush()/commit(): UPDATE if the bit is set
+  | other                           -- obj.<another attribute> = …  (the object becomes 'modified', this attribute's bit is not set)
+  | flush                           -- flush()/commit(): INSERT of a created object / UPDATE of the columns whose bit is set
+  | refresh (v : T)                 -- volatile attribute after a save: `_update_dbvals_` drops the value, the next access reads it
+                                    -- again from the database, which returns `v`
   | reload (v : T)                  -- commit, end of session; a new session reads the value: the database returns `v`
   deriving Repr, Inhabited
 
-def St.load (cfg : Cfg) (dbv : T) : St := { doc := make cfg dbv, dirty := false, db := dbv }
+def St.load (cfg : Cfg) (dbv : T) (vol : Bool := false) : St :=
+  { doc := make cfg dbv, dirty := false, db := dbv, status := .loaded, volatile := vol }
 
-def doFlush (s : St) : St := if s.dirty then { s with db := ser s.doc, dirty := false } else s
+/-- `E(attr=v)`: `validate` wraps the value; the object is 'created', `_wbits_` is None, there is no row yet -/
+def St.create (cfg : Cfg) (v : T) (vol : Bool := false) : St :=
+  { doc := make cfg v, dirty := false, db := .atom .null, status := .created, volatile := vol }
+
+/-- `_save_created_` writes every value, `_save_updated_` the columns whose bit is set -/
+def doFlush (s : St) : St :=
+  match s.status with
+  | .created => { s with db := ser s.doc, dirty := false, status := .inserted }
+  | .modified => { s with db := if s.dirty then ser s.doc else s.db, dirty := false, status := .updated }
+  | _ => s
+
+def notified (s : St) (n : Bool) : St := if n then attrChanged s else s
 
 def step (cfg : Cfg) (s : St) : Op → St × Option Err
   | .lmut p m => match modAt (applyL cfg m) p s.doc with
-      | .ok (d, n) => ({ s with doc := d, dirty := s.dirty || n }, none)
-      | .error (e, n) => ({ s with dirty := s.dirty || n }, some e)
+      | .ok (d, n) => (notified { s with doc := d } n, none)
+      | .error (e, n) => (notified s n, some e)
   | .dmut p m => match modAt (applyD cfg m) p s.doc with
-      | .ok (d, n) => ({ s with doc := d, dirty := s.dirty || n }, none)
-      | .error (e, n) => ({ s with dirty := s.dirty || n }, some e)
+      | .ok (d, n) => (notified { s with doc := d } n, none)
+      | .error (e, n) => (notified s n, some e)
   | .read p => (s, if (getAt p s.doc).isSome then none else some .nav)
-  | .touch => ({ s with dirty := true }, none)
-  | .assign v => ({ s with doc := make cfg v, dirty := true }, none)
+  | .touch => (attrChanged s, none)
+  | .assign v => (attrChanged { s with doc := make cfg v }, none)
+  | .other => (if s.status != .created then { s with status := .modified } else s, none)
   | .flush => (doFlush s, none)
+  | .refresh v =>
+      if s.volatile && !s.dirty && s.status != .created && isPlain v && sameJson v s.db
+      then ({ s with doc := make cfg v, db := v }, none) else (s, some .nav)
   | .reload v =>
       -- the database returns the document that was written, up to the order of object keys
-      if isPlain v && sameJson v (doFlush s).db then (St.load cfg v, none) else (s, some .nav)
+      if isPlain v && sameJson v (doFlush s).db then (St.load cfg v s.volatile, none) else (s, some .nav)
 
 def run (cfg : Cfg) : List Op → St → St
   | [], s => s
